@@ -196,6 +196,9 @@ def rich_fn(rng, name, vis=None, allow_const=True, min_stmts=0, deps=None, trait
     return "\n".join(attrs + [" ".join(sig.split()) + " " + body])
 
 
+INNER_ATTRS = ["#![allow(dead_code)]", "//! inner module docs", "#![doc = \"inner\"]", "#![cfg_attr(all(), allow(unused))]", "#![allow(clippy::all, unused_variables)]"]
+
+
 def rich_mod(rng, name, nfns=None):
     items = []
     n = nfns if nfns is not None else rng.randint(0, 4)
@@ -205,6 +208,9 @@ def rich_mod(rng, name, nfns=None):
     others = rng.sample(MOD_ITEMS_OTHER, rng.randint(0, 10))
     items += others
     rng.shuffle(items)
+    if rng.random() < 0.15:
+        # inner attributes: they open the module body, before the first item
+        items = rng.sample(INNER_ATTRS, rng.randint(1, 2)) + items
     attrs = rng.sample(["/// module docs", "#[allow(dead_code)]", "#[cfg(all())]", "#[doc(hidden)]", "#[rustfmt::skip]"], rng.randint(0, 2))
     vis = rng.choice(["", "pub", "pub(crate)", "pub(super)"])
     return "\n".join(attrs + ["%s mod %s {" % (vis, name)] + ["    " + it.replace("\n", "\n    ") for it in items] + ["}"])
